@@ -49,7 +49,9 @@ AXES = {
     "text": TEXTS,
     "cap_style_key": [None, "color", "font-family", "text-align", "font-size", "class", "display-align"],
     "cap_style_val": VALS,
-    "span_style": [None, "italics", "italics+color", "class-defined", "class-undefined", "color-only"],
+    # "nested-*": an outer styled span that contains a style node no DFXP writer can express (bold only / underline
+    # only / empty) - balanced, properly nested
+    "span_style": [None, "italics", "italics+color", "class-defined", "class-undefined", "color-only", "nested-bold", "nested-underline", "nested-empty", "text-align"],
     "span_val": VALS,
     "set_style_id": [None] + VALS[1:7] + ["p", "default"],
     "set_style_val": VALS,
@@ -102,13 +104,22 @@ def build(cfg):
         # caption 1: text, optionally with a styled span
         nodes = [CaptionNode.create_text(cfg["text"])]
         sp = cfg["span_style"]
-        if sp:
+        if sp and sp.startswith("nested-"):
+            outer = {"italics": True, "color": cfg["span_val"]}
+            inner = {"nested-bold": {"bold": True}, "nested-underline": {"underline": True}, "nested-empty": {}}[sp]
+            L = mk_layout(cfg["span_layout"])
+            nodes += [CaptionNode.create_break(), CaptionNode.create_style(True, outer, layout_info=L), CaptionNode.create_text("sty", layout_info=L),
+                      CaptionNode.create_style(True, inner, layout_info=L), CaptionNode.create_text("in", layout_info=L), CaptionNode.create_style(False, inner, layout_info=L),
+                      CaptionNode.create_text("led", layout_info=L), CaptionNode.create_style(False, outer, layout_info=L)]
+        elif sp:
             content = {
                 "italics": {"italics": True},
                 "italics+color": {"italics": True, "color": cfg["span_val"]},
                 "class-defined": {"class": cfg["span_val"]},
                 "class-undefined": {"class": "nosuch" + cfg["span_val"]},
                 "color-only": {"color": cfg["span_val"], "font-family": cfg["span_val"]},
+                # a style attribute that positioning writes too (tts:textAlign)
+                "text-align": {"text-align": "center", "italics": True},
             }[sp]
             L = mk_layout(cfg["span_layout"])
             nodes += [CaptionNode.create_break(), CaptionNode.create_style(True, content, layout_info=L), CaptionNode.create_text("styled", layout_info=L), CaptionNode.create_style(False, content, layout_info=L)]
@@ -365,8 +376,10 @@ def run_shard(d):
                 continue
             ndev = sum(1 for k in AXES if cfg[k] != AXES[k][0])
             for oi, opt in enumerate(OPTS):
-                if oi and ndev == 2 and not thorough and (i // d["nparts"] + oi) % 4:
-                    continue  # quick: option sets on a quarter of the two-deviation sets (options x 2 deviations would be 3-wise)
+                # an option that acts on one kind of axis is always combined with deviations of that axis
+                related = ("write_inline_positioning" in opt and any(cfg[k] != AXES[k][0] for k in ("lang_layout", "cap_layout", "span_layout", "other_lang_layout"))) or ("force" in opt and cfg["nlangs"] != 1)
+                if oi and ndev == 2 and not thorough and not related and (i // d["nparts"] + oi) % 4:
+                    continue  # quick: the other option sets on a quarter of the two-deviation sets (options x 2 deviations would be 3-wise)
                 if oi and ndev == 3 and (i // d["nparts"] + oi) % 7:
                     continue
                 v, out = evaluate(cfg, w, opt)
